@@ -41,6 +41,8 @@ add("C07", EX, "Bounded-exhaustive: ALL labelled digraphs with <= 4 (5) nodes x 
     "bounded exhaustive enumeration of all small digraphs x start sets against a reference algorithm")
 add("C09", EX, "Bounded-exhaustive: every optimisation (cull, inline, inline_functions, fuse_linear, fuse over a parameter grid, task-spec fusion/cull, resolve_aliases, Task.fuse, substitute) applied to every small DAG x kinds x key styles x every requested-key subset; the optimised graph is evaluated and compared with the reference values of the original, and returned dependency maps are compared with the returned graph.", "5/C09", GRAPH_NOTE,
     "bounded exhaustive enumeration of small graphs x request subsets x parameter grid with differential evaluation")
+add("C11", EX, "All pairs over a constructed universe of ~20k task nodes (every argument tuple, hence every permutation, nesting depth 2): pairs are decided by grouping on (type, token); every equal pair is evaluated on every assignment of its references.", "5/C11", "Trusted: GraphNode.__eq__ is token-based (read from the code), so token groups contain every equal pair.",
+    "exhaustive all-pairs comparison over a bounded constructed universe (group by token, evaluate each equal pair)")
 
 
 def build():
